@@ -74,6 +74,11 @@ func with0(fn func()) error {
 
 func withT(fn func() (T, error)) (T, error) { return fn() }
 
+func withTE(fn func() (T, error)) error {
+	_, err := fn()
+	return err
+}
+
 func withAny(fn func() (int, string, error)) (any, error) {
 	a, _, err := fn()
 	return a, err
@@ -197,6 +202,12 @@ func (g *c14Gen) ret(shape string) string {
 			return "return with(func() error { return E{Code: 7} })"
 		case 5:
 			g.feats["closure-argument-more-results"] = true
+			if rapid.Bool().Draw(g.t, "forwarding") {
+				// the closure forwards a multi-value call instead of spelling its results out
+				g.feats["closure-forwards-multi-value-call"] = true
+				c, ok := g.call("terr")
+				return or("return withTE(func() (T, error) { return "+c+" })", ok, "return withTE(func() (T, error) { return Impl{}.Get() })")
+			}
 			return "return with2(func() (int, error) { return 1, E{Code: 8} })"
 		case 6:
 			g.feats["closure-argument-fewer-results"] = true
@@ -399,13 +410,36 @@ func (g *c14Gen) litFunc(name string) c14Func {
 		return "return " + strings.Join(ops, ", ")
 	}
 	for r := 0; r < nret-1; r++ {
-		switch rapid.IntRange(0, 2).Draw(g.t, "litflow") {
+		// every kind of statement that can hold a return statement
+		switch rapid.IntRange(0, 11).Draw(g.t, "litflow") {
 		case 0:
 			fmt.Fprintf(&b, "if cond() {\n%s\n}\n", mkRet())
 		case 1:
 			fmt.Fprintf(&b, "switch sel() {\ncase %d:\n%s\n}\n", r, mkRet())
-		default:
+		case 2:
 			fmt.Fprintf(&b, "for cond() {\n%s\n}\n", mkRet())
+		case 3:
+			g.feats["return-in-labeled-statement"] = true
+			fmt.Fprintf(&b, "lbl%d:\nfor cond() {\nif cond() {\ncontinue lbl%d\n}\n%s\n}\n", r, r, mkRet())
+		case 4:
+			fmt.Fprintf(&b, "if cond() {\n} else {\n%s\n}\n", mkRet())
+		case 5:
+			fmt.Fprintf(&b, "for range []int{1} {\n%s\n}\n", mkRet())
+		case 6:
+			g.feats["return-in-select"] = true
+			fmt.Fprintf(&b, "select {\ncase <-make(chan int):\n%s\ndefault:\n}\n", mkRet())
+		case 7:
+			g.feats["return-in-type-switch"] = true
+			fmt.Fprintf(&b, "switch x%d := any(sel()).(type) {\ncase int:\n_ = x%d\n%s\n}\n", r, r, mkRet())
+		case 8:
+			fmt.Fprintf(&b, "{\n%s\n}\n", mkRet())
+		case 9:
+			fmt.Fprintf(&b, "switch sel() {\ndefault:\n%s\n}\n", mkRet())
+		case 10:
+			fmt.Fprintf(&b, "if cond() {\n} else if cond() {\n%s\n}\n", mkRet())
+		default:
+			g.feats["return-in-labeled-statement"] = true
+			fmt.Fprintf(&b, "sw%d:\nswitch sel() {\ncase 1:\nif cond() {\nbreak sw%d\n}\n%s\n}\n", r, r, mkRet())
 		}
 	}
 	if rapid.Bool().Draw(g.t, "litclosure") {
